@@ -269,6 +269,22 @@ class PathMgr:
                 print(f'SLOW feasibility check {dt:.1f}s result={r} extra={str(extra)[:300]}', flush=True)
         return r != z3.unsat
 
+    def feasible_precise(self, extra) -> bool:
+        """feasibility with a generous budget (fresh one-shot solver): used where a wrong 'feasible' would make
+        the function unsupported rather than merely cost an extra path"""
+        if not self.feasible(extra):
+            return False
+        s2 = z3.Solver()
+        s2.set('timeout', 30000)
+        s2.add(*self.background())
+        s2.add(*self.pc)
+        s2.add(extra)
+        t = time.time()
+        r = s2.check()
+        if os.environ.get('PYVC_DEBUG'):
+            print(f'[precise] {r} in {time.time() - t:.1f}s', flush=True)
+        return r != z3.unsat
+
     def implied(self, cond) -> bool:
         """pc |= cond (solver-decided; unknown counts as not implied)"""
         c = smt.simp(cond)
@@ -323,7 +339,12 @@ class PathMgr:
                 raise Infeasible()
             d = feas[0]
             for alt in feas[1:]:
-                self.pending.append(self.decisions[:self.pos] + [alt])
+                alt_prefix = self.decisions[:self.pos] + [alt]
+                sink = getattr(self, 'pending_sink', None)
+                if sink is not None and self.sub_depth == 0:
+                    sink(alt_prefix)          # hand the alternative to the scheduler at once (other cores)
+                else:
+                    self.pending.append(alt_prefix)
             self.decisions.append(d)
             self.stats['branches'] += 1
         self.pos += 1
@@ -503,7 +524,8 @@ class PathMgr:
         """record + discharge an obligation under the current pc; afterwards the goal is assumed."""
         g = smt.simp(goal)
         self.stats['obligations'] += 1
-        oid = f'{self.current_func}#{kind}#{len(self.obligations)}'
+        tag = getattr(self, 'path_tag', '')
+        oid = f'{self.current_func}#{kind}#{tag + "/" if tag else ""}{len(self.obligations)}'
         ob = Obligation(oid=oid, func=self.current_func, kind=kind, text=text, pc=list(self.pc), goal=g,
                         props=tuple(props), decisions=tuple(self.decisions[:self.pos]), info=dict(info or {}))
         self.obligations.append(ob)
